@@ -203,8 +203,9 @@ async def contain_case(case):
 
 
 # ---------------------------------------------------------------------------------------------------------------
-def load_file_text(name, kind):
-    """a @service and a trigger BEFORE the statement that may fail, and another pair after it"""
+def load_file_text(name, kind, shared=None):
+    """a @service and a trigger BEFORE the statement that may fail, and another pair after it; shared = (service name, role):
+    a function claiming a service name that another file (the owner, loaded first) claims too"""
     def pair(tag):
         return f'''
 @service
@@ -214,6 +215,13 @@ def {tag}_svc_{name}():
 @event_trigger("pv_ping")
 def {tag}_trig_{name}(**kw):
     event.fire("pv_ran", who="{name}", piece="{tag}_trig")
+'''
+    sh = ""
+    if shared:
+        sh = f'''
+@service("pyscript.{shared[0]}")
+def shared_{name}():
+    event.fire("pv_ran", who="{name}", piece="shared")
 '''
     if kind == "ret":
         mid = "x = 1\n"
@@ -230,16 +238,26 @@ def pv_fail():
 x = 1
 pv_fail()
 '''
-    return pair("early") + mid + pair("late")
+    return pair("early") + sh + mid + pair("late")
 
 
 PIECES = ["early_svc", "early_trig", "late_svc", "late_trig"]
-LAST_DETAIL = []
 CASE_NO = [0]
+CONFLICT_TEXT = "already defined in"
 
 
-async def observe_phase(env, files, n0):
-    """-> loaded (all pieces live), residue (any piece live), logs per file"""
+def file_logs(records, name):
+    """error records on the file's logger, not counting the report of a refused duplicate service name"""
+    prefix = "custom_components.pyscript.file." + name
+    n = 0
+    for lname, level, msg in records:
+        if level in ("ERROR", "CRITICAL") and (lname == prefix or lname.startswith(prefix + ".")) and CONFLICT_TEXT not in msg:
+            n += 1
+    return n
+
+
+async def observe_all(env, names, n0, shared):
+    """-> {name: (loaded, residue, logs, detail)}, shared_ok"""
     from custom_components.pyscript.function import Function
 
     hass = env.hass
@@ -247,7 +265,7 @@ async def observe_phase(env, files, n0):
     hass.bus.async_fire("pv_ping", {})
     await env.settle()
     registered = {}
-    for name, _kind in files:
+    for name in names:
         for tag in ("early", "late"):
             svc = f"{tag}_svc_{name}"
             has = hass.services.has_service("pyscript", svc)
@@ -257,20 +275,31 @@ async def observe_phase(env, files, n0):
                     await hass.services.async_call("pyscript", svc, {}, blocking=True)
                 except BaseException:  # pylint: disable=broad-except
                     pass
+    shared_has = None
+    if shared:
+        shared_has = hass.services.has_service("pyscript", shared["svc"])
+        if shared_has:
+            try:
+                await hass.services.async_call("pyscript", shared["svc"], {}, blocking=True)
+            except BaseException:  # pylint: disable=broad-except
+                pass
     await env.settle()
     ran = {(d.get("who"), d.get("piece")) for _v, t, d in env.events[e0:] if t == "pv_ran"}
-    loaded, residue, logs = [], [], []
-    detail = LAST_DETAIL
-    detail.clear()
-    for name, _kind in files:
+    res = {}
+    for name in names:
         live_all = all((name, pc) in ran for pc in PIECES) and all(registered[(name, pc)] for pc in ("early_svc", "late_svc"))
         live_any = any((name, pc) in ran for pc in PIECES) or any(registered[(name, pc)] for pc in ("early_svc", "late_svc"))
-        loaded.append(live_all)
-        residue.append(live_any)
-        detail.append({pc: [(name, pc) in ran, registered.get((name, pc))] for pc in PIECES})
-        s, _o = count_records(env.log.records[n0:], "custom_components.pyscript.file." + name)
-        logs.append(s)
-    return loaded, residue, logs
+        res[name] = (live_all, live_any, file_logs(env.log.records[n0:], name),
+                     {pc: [(name, pc) in ran, registered.get((name, pc))] for pc in PIECES})
+    shared_ok = True
+    shared_detail = None
+    if shared:
+        who = sorted(w for w, pc in ran if pc == "shared")
+        owner_live = res[shared["owner"]][0]
+        # while the owner file is loaded the name is its service and runs its function, and never the other file's
+        shared_ok = (who == [shared["owner"]] and shared_has) if owner_live else (who == [] or who == [shared["dup"]])
+        shared_detail = {"has": shared_has, "ran": who, "owner_live": owner_live}
+    return res, shared_ok, shared_detail
 
 
 async def load_case(case):
@@ -280,37 +309,68 @@ async def load_case(case):
     # names are made unique per case: pyscript objects of an earlier case that are garbage-collected late (EvalFuncVar.__del__
     # -> trigger_stop -> service_remove) would otherwise remove the same-named service of the case now running
     CASE_NO[0] += 1
-    phases = [[[f"{name}n{CASE_NO[0]}", kind] for name, kind in ph] for ph in case["phases"]]
-    files = {f"{name}.py": load_file_text(name, kind) for name, kind in phases[0]}
+    sfx = f"n{CASE_NO[0]}"
+    phases = case["phases"]
+    shared = None
+    if case.get("shared"):
+        shared = {"svc": "shared_" + sfx, "owner": case["shared"]["owner"] + sfx, "dup": case["shared"]["dup"] + sfx}
+
+    def text(name, kind, dup_on):
+        role = None
+        if shared and (name == shared["owner"] or (name == shared["dup"] and dup_on)):
+            role = (shared["svc"], "x")
+        return load_file_text(name, kind, role)
+
+    first = [(n + sfx, k) for n, k in phases[0]["files"]]
+    names = [n for n, _k in first]
+    files = {f"{n}.py": text(n, k, phases[0].get("dup", True)) for n, k in first}
     env = PyscriptEnv(files=files, legacy=case["sub"] == "legacy", log_level=logging.ERROR)
     out = []
+    esc = {"escaped": True, "loaded": [], "residue": [], "logs": [], "others_ok": True}
     try:
-        escaped = None
         try:
             await env.__aenter__()
         except BaseException as exc:  # pylint: disable=broad-except
-            escaped = repr(exc)[:200]
-        if escaped is not None:
-            out.append({"escaped": True, "escaped_exc": escaped, "loaded": [], "residue": [], "logs": []})
+            out.append(dict(esc, escaped_exc=repr(exc)[:200]))
             return {"phases": out}
         await env.settle()
-        loaded, residue, logs = await observe_phase(env, phases[0], 0)
-        out.append({"escaped": False, "loaded": loaded, "residue": residue, "logs": logs, "detail": list(LAST_DETAIL)})
+        res, shared_ok, sd = await observe_all(env, names, 0, shared)
+        out.append({"escaped": False, "loaded": [res[n][0] for n in names], "residue": [res[n][1] for n in names],
+                    "logs": [res[n][2] for n in names], "others_ok": shared_ok, "detail": [res[n][3] for n in names], "shared": sd})
+        prev = res
         for k, ph in enumerate(phases[1:], 1):
             n0 = len(env.log.records)
-            for name, kind in ph:
-                env.write(f"{name}.py", load_file_text(name, kind), mtime=2000000000 + 100 * k)
             escaped = None
+            if ph["t"] == "all":
+                todo = [(n + sfx, kd) for n, kd in ph["files"]]
+                data = {}
+            else:
+                todo = [(ph["name"] + sfx, ph["kind"])]
+                data = {"global_ctx": "file." + ph["name"] + sfx}
+            for n, kd in todo:
+                env.write(f"{n}.py", text(n, kd, ph.get("dup", True)), mtime=2000000000 + 100 * k)
             try:
-                await env.reload()
+                await env.hass.services.async_call("pyscript", "reload", data, blocking=True)
             except BaseException as exc:  # pylint: disable=broad-except
                 escaped = repr(exc)[:200]
             await env.settle()
+            # objects of the replaced contexts are finalised now (EvalFuncVar.__del__ -> trigger_stop), as they would be some time
+            # later in a running system: whatever they release must be their own
+            gc.collect()
+            await env.settle()
             if escaped is not None:
-                out.append({"escaped": True, "escaped_exc": escaped, "loaded": [], "residue": [], "logs": []})
+                out.append(dict(esc, escaped_exc=escaped))
                 break
-            loaded, residue, logs = await observe_phase(env, ph, n0)
-            out.append({"escaped": False, "loaded": loaded, "residue": residue, "logs": logs, "detail": list(LAST_DETAIL)})
+            res, shared_ok, sd = await observe_all(env, names, n0, shared)
+            sel = [n for n, _kd in todo]
+            others_ok = shared_ok
+            for n in names:
+                if n not in sel and (res[n][0] != prev[n][0] or res[n][1] != prev[n][1] or res[n][2] != 0):
+                    others_ok = False
+            out.append({"escaped": False, "loaded": [res[n][0] for n in sel], "residue": [res[n][1] for n in sel],
+                        "logs": [res[n][2] for n in sel], "others_ok": others_ok, "shared": sd,
+                        "detail": {n: res[n][3] for n in names}})
+            prev = res
         return {"phases": out, "handler": list(handler_calls),
                 "others": [(n, m[-160:]) for n, l, m in env.log.records if l == "ERROR" and not n.startswith("custom_components.pyscript.file.")][:6]}
     finally:
